@@ -65,6 +65,8 @@ def explore(ctx):
         s["action"] = {"k": "ctx"}
         if s["nonce"] == "" and i % 3:
             s["nonce"] = "%032x" % rng.getrandbits(128)
+        if i % 4 == 1:
+            s["schema_id"] = rng.choice(["5ca1ab1e", "DEADbeef00", "6b79632d32303234"])     # identifiers that are also hex strings
         cs.append(s)
     # fixed shapes: two credentials whose claim 1 is tied by an equality statement, with a predicate on that very claim
     # (a reference retargeted to the other credential then meets the same response: only the transcript tells them apart)
@@ -125,7 +127,7 @@ def explore(ctx):
     return {
         "evaluations": len(terms),
         "distinct_nontrivial": len(distinct),
-        "rule": "cases = honestly created presentations over generated schemas (all statement kinds, 1..3 credentials, BBS/PS) x every single change of a verifier-side parameter (nonce bit flip / truncation / extension, schema id, statement order, and per statement: issuer id, signing key, revocation key, registry value, encryption key, credential-schema id / label / description / blindable list / same-length claim-label rename / claim count, requested disclosures, reference ids (retargeted to another signature statement), claim index, registry and keys, generators, range bounds and their presence, decryption flag, equality references); each must make Presentation::verify fail, and the library's transcript digest must change exactly when the Coq payload sequence changes; distinct by (suite, statements, mutation)",
+        "rule": "cases = honestly created presentations over generated schemas (all statement kinds, 1..3 credentials, BBS/PS) x every single change of a verifier-side parameter (nonce bit flip / truncation / extension, schema id incl. other spellings of the same text (case swapped, hex spelling, hex-decoded, trailing space; also for issuer and credential-schema ids), statement order, and per statement: issuer id, signing key, revocation key, registry value, encryption key, credential-schema id / label / description / blindable list / same-length claim-label rename / claim count, requested disclosures, reference ids (retargeted to another signature statement), claim index, registry and keys, generators, range bounds and their presence, decryption flag, equality references); each must make Presentation::verify fail, and the library's transcript digest must change exactly when the Coq payload sequence changes; distinct by (suite, statements, mutation)",
         "samples": samples or [{"mutation": "none"}],
         "histograms": hist,
         "failures": failures,
